@@ -43,6 +43,7 @@ type Sched struct {
 	ilHash   uint64
 	seq      uint64 // global event sequence for per-task logs
 	deadlock bool
+	nblock   int
 	// InCall is set by scenarios around library calls so that statement-level
 	// yields can count "switches inside a call".
 	SwitchesInCall int
@@ -57,6 +58,7 @@ type Task struct {
 	waiting func() bool
 	Panic   interface{} // recovered panic value that escaped fn (a harness matter unless the scenario says otherwise)
 	InCall  bool
+	Live    bool // spawned while the scheduler was running (SpawnLive)
 }
 
 func NewSched(sch Schedule) *Sched {
@@ -193,6 +195,74 @@ func (t *Task) Yield() {
 	s.tasks[next].resume.Send()
 	t.resume.Recv()
 }
+
+// Block is a scheduling point at which the calling task CANNOT make progress
+// (it spins on a lock or a counter that another task must change): another
+// runnable task is picked if there is one — under every schedule mode, "seq"
+// included. If no other task is runnable nobody can ever change what the caller
+// waits for: that is a deadlock.
+//
+//go:norace
+func (t *Task) Block() {
+	s := t.s
+	y := s.yieldNo
+	s.yieldNo++
+	n := len(s.tasks)
+	nr := 0
+	lowest := -1
+	for i := 0; i < n; i++ {
+		if i != t.ID && s.runnable(i) {
+			if lowest < 0 {
+				lowest = i
+			}
+			nr++
+		}
+	}
+	if nr == 0 {
+		s.deadlock = true
+		s.back.Send()
+		t.resume.Recv() // never resumed
+		return
+	}
+	next := lowest
+	if s.sch.Mode == "hash" || s.sch.Mode == "explicit" {
+		k := int(H(s.sch.Seed^0x3c3c9999, y) % uint64(nr))
+		for i := 0; i < n; i++ {
+			if i != t.ID && s.runnable(i) {
+				if k == 0 {
+					next = i
+					break
+				}
+				k--
+			}
+		}
+	}
+	s.nblock++
+	s.record(y, t.ID, next)
+	s.cur = next
+	s.tasks[next].resume.Send()
+	t.resume.Recv()
+}
+
+// SpawnLive adds a task WHILE the scheduler runs (the code under test started
+// a goroutine). It must be called from the task that is running; the new task
+// becomes runnable at once and first runs when the schedule picks it.
+func (s *Sched) SpawnLive(fn func(t *Task)) *Task {
+	t := &Task{ID: len(s.tasks), s: s, resume: newSignal(), fn: fn, Live: true}
+	s.tasks = append(s.tasks, t)
+	s.wg.Add(1)
+	go t.body()
+	return t
+}
+
+// NumTasks returns the number of tasks, tasks spawned while running included.
+func (s *Sched) NumTasks() int { return len(s.tasks) }
+
+// TaskLive reports whether task t was spawned while running.
+func (s *Sched) TaskLive(t int) bool { return s.tasks[t].Live }
+
+// Blocks returns how often a task had to give way because it could not proceed.
+func (s *Sched) Blocks() int { return s.nblock }
 
 // WaitUntil parks the task until pred() is true. pred must be a pure function of
 // simulated state (it is evaluated by whichever task is running).
